@@ -217,7 +217,7 @@ def rule_roundtrip(ctx, res, sizes):
                   '{} lines evaluated'.format(
                       len(se.writer) if isinstance(se.writer, list) else 0),
                   '{} section does not survive write-then-read: {}'.format(
-                      sec, d), f.loc if f else '')
+                      sec, d), f.loc if f else '', semantic=True)
         decided.add(sec)
     return decided
 
